@@ -576,6 +576,15 @@ def epc_case(acc):
         kw = dict(BASE)
         kw['name'] = SAMPLE_TEXT[i]
         epc_one(kw, acc)
+    # the 331-byte limit is a limit in bytes: fields within their character limits whose UTF-8 form is larger must be refused
+    for name, text in (('\u5c71' * 70, 'x' * 140), ('\u5c71' * 40, '\u5c71' * 60), ('n' * 70, '\u20ac' * 80), ('\u5c71' * 30, 'x' * 100), ('\u5c71' * 60, None),
+                       ('\u0416' * 70, '\u0416' * 140), ('\u5c71' * 20, '\u5c71' * 50)):
+        kw = dict(BASE)
+        kw['name'] = name
+        kw['text'] = text
+        if text is None:
+            kw['reference'] = 'RF18539007547034'
+        epc_one(kw, acc, symbol=True, may_refuse=True)
     # a requested character set that cannot represent a field: refused, or a payload whose character-set line tells the truth
     for i in range(1, 9):
         for j in range(1, 9):
